@@ -12,7 +12,7 @@ JSON that is no envelope, an oversized envelope) left the transport looking conn
 -/
 namespace LimeModel.ClientLife
 
-inductive Fault | srvFinish | srvFail | drop | halfClose | garbage | notEnvelope | oversize
+inductive Fault | srvFinish | srvFail | drop | halfClose | garbage | notEnvelope | oversize | oddSession
   deriving DecidableEq, Repr
 
 structure CL where
@@ -32,6 +32,9 @@ def fault (fixed : Bool) (s : CL) : Fault → CL
     { s with connected := false, receiverAlive := false }
   | .garbage | .notEnvelope | .oversize =>   -- the receiver gets another error
     if fixed then { s with connected := false, receiverAlive := false }   -- and closes the transport
+    else { s with receiverAlive := false }
+  | .oddSession =>          -- a session envelope that ends nothing: the receiver hands it over and stops
+    if fixed then { s with connected := false, receiverAlive := false }   -- ... closing the transport
     else { s with receiverAlive := false }
 
 /-- `getOrBuildChannel` (the server is reachable): reuse, or build a fresh established channel -/
